@@ -1258,7 +1258,12 @@ impl DbInner {
 				let max_logs = if self.options.sync_data { MAX_LOG_FILES } else { KEEP_LOGS };
 				let dirty_logs = self.log.num_dirty_logs();
 				if !validation_mode {
-					while self.log.num_dirty_logs() > max_logs {
+					// Once shutdown is requested the cleanup worker may already have exited, so
+					// nobody would ever signal `cleanup_queue_wait`: `kill_logs` cleans all logs
+					// itself when it is done.
+					while !self.shutdown.load(Ordering::SeqCst) &&
+						self.log.num_dirty_logs() > max_logs
+					{
 						log::debug!(target: "parity-db", "Waiting for log cleanup. Queued: {}", dirty_logs);
 						self.cleanup_queue_wait.wait();
 					}
